@@ -124,11 +124,11 @@ static void apply(void *vs, int op)
 #line 151 "/verif/harness/h_memtrack.c"
         note(t, p, 64, "a/rather/long/path/name/of/a/source/file.c", 2002, 0x22); if (!p) FAIL(site, "model:null", shape, "MALLOC returned NULL"); break;
     case K_CALLOC:
-#line 3003 "short.c"
+#line 70003 "short.c"
         p = CALLOC(int, 4);
 #line 156 "/verif/harness/h_memtrack.c"
         if (p) { unsigned char *q = p; for (int i = 0; i < 16; i++) if (q[i]) { FAIL(site, "model:calloc-not-zeroed", shape, "CALLOC block byte %d is 0x%02x", i, q[i]); break; } }
-        note(t, p, 16, "short.c", 3003, 0x33); if (!p) FAIL(site, "model:null", shape, "CALLOC returned NULL"); break;
+        note(t, p, 16, "short.c", 70003, 0x33); if (!p) FAIL(site, "model:null", shape, "CALLOC returned NULL"); break;
     case K_STRDUP:
 #line 4004 "exactly-twenty-chars"
         p = STRDUP("xy");
@@ -149,7 +149,7 @@ static void apply(void *vs, int op)
     case K_REALLOC8_MOVE: case K_REALLOC8_STAY: case K_REALLOC64_MOVE: case K_REALLOC64_STAY: {
         size_t nsz = (o->k <= K_REALLOC8_STAY) ? 8 : 64, keep = t->size < nsz ? t->size : nsz; void *old = p;
         g_realloc_mode = (o->k == K_REALLOC8_MOVE || o->k == K_REALLOC64_MOVE) ? 1 : 2;
-#line 7007 "another/long/path/name/for/realloc.c"
+#line 131079 "another/long/path/name/for/realloc.c"
         p = REALLOC(p, nsz);
 #line 181 "/verif/harness/h_memtrack.c"
         g_realloc_mode = 0;
@@ -157,7 +157,7 @@ static void apply(void *vs, int op)
         t->p = p;
         if (!intact(t, keep)) FAIL(site, "model:realloc-content", shape, "the first %zu bytes were not preserved", keep);
         if (old != p) s->dead = old;
-        { int was = t->tracked; note(t, p, nsz, "another/long/path/name/for/realloc.c", 7007, (unsigned char) (0x70 + o->k)); t->tracked = was; }
+        { int was = t->tracked; note(t, p, nsz, "another/long/path/name/for/realloc.c", 131079, (unsigned char) (0x70 + o->k)); t->tracked = was; }
         break; }
     case K_FREE:
 #line 8008 "short.c"
